@@ -388,6 +388,7 @@ func TestVerifC22Kad(t *testing.T) {
 		"v4 as v0, but every peer that ends private is first reported public and downgraded after all connects",
 		"v5 as v0, then SetRadius(1) and under that lowered radius one event of every kind on extra peers (connected, public, outbound, public, downgrade to private, disconnected, disconnect-force), then SetRadius(31)",
 		"v6 SetRadius(0) first, descending outbound build-up, SetRadius(2) (raise), connected/public/disconnect-force of an extra bin-0 peer, SetRadius(1) (lower), outbound/public/disconnect-force of an extra bin-4 peer, connected/public/disconnected of an extra bin-1 peer, SetRadius(31)",
+		"v7 as v0, then every connected peer in turn leaves by Disconnected and comes back (connect + status), then every peer in turn leaves by DisconnectForce and comes back (outbound + status): each departure is judged on the set without that peer",
 	}
 
 	var cfgDesc []string
@@ -530,6 +531,19 @@ func TestVerifC22Kad(t *testing.T) {
 					c22Event{kind: "connected", peer: e1}, c22Event{kind: "public", peer: e1},
 					c22Event{kind: "disconnected", peer: e1},
 					c22Event{kind: "radius", radius: 31})
+			case 7:
+				for _, p := range byBin(false) {
+					ev = append(ev, c22Event{kind: "connected", peer: p})
+					ev = append(ev, status(p)...)
+				}
+				for _, p := range byBin(true) {
+					ev = append(ev, c22Event{kind: "disconnected", peer: p}, c22Event{kind: "connected", peer: p})
+					ev = append(ev, status(p)...)
+				}
+				for _, p := range byBin(false) {
+					ev = append(ev, c22Event{kind: "disconnect-force", peer: p}, c22Event{kind: "outbound", peer: p})
+					ev = append(ev, status(p)...)
+				}
 			}
 			return ev
 		}
